@@ -538,9 +538,13 @@ def run_ml(chooser, cfg, inp):
     w.pre_ae = None
     keys = sorted({k for (_t, _l, k, _v) in inp["writes"]})
 
+    w.pre_conflicts = 0
+
     def on_event(ev):
         if w.pre_ae is None and ev.time.nanoseconds // NS >= tq:
             w.pre_ae = w.final(keys)
+            # conflicts detected while replicating (anti-entropy also counts identical versions as conflicts)
+            w.pre_conflicts = sum(ld.stats.conflicts_detected for ld in leaders)
 
     with owned_random(chooser):
         r = run_guarded(sim, max_events=MAX_EVENTS, on_event=on_event)
@@ -734,7 +738,7 @@ def _job(job):
                 st["pre_ae_div"] += 1
             if r["outcome"] == "done" and not getattr(w, "premise", True):
                 st["premise_unmet"] += 1
-            conflict = any(ld.stats.conflicts_detected for ld in w.leaders)
+            conflict = w.pre_conflicts > 0
         else:
             conflict = False
         dg = digest(obs)
@@ -995,7 +999,7 @@ def main(tier, seed, only=None):
                     "link delays (and anti-entropy peer picks) run on the real Simulation/Network/replication nodes; "
                     "executions are distinct by construction; non-trivial = some link delivered two messages in the "
                     "opposite order of sending, or two writes of one key were in flight together, or a leader detected "
-                    "a concurrent-write conflict (rstore: a put started before an earlier put of the key returned); "
+                    "a concurrent-write conflict while replicating (rstore: a put started before an earlier put of the key returned); "
                     "states = distinct end-to-end observations (final stores, per-ack replica snapshots, read replies) "
                     "summed over sub-spaces"),
               assumptions=["1 tick = 1 s so every instant and timestamp is an exact integer-second float",
